@@ -165,7 +165,7 @@ func (o c16Op) String() string {
 		return fmt.Sprintf("%s on %s at value position #%d", en, name(o.Obj), o.Pos)
 	}
 	if o.Kind == 2 {
-		return "Parse(another document, reuse = original)"
+		return fmt.Sprintf("Parse(another document, reuse = %s)", name(o.Obj))
 	}
 	if o.Kind == 3 {
 		return "Deserialize(blob of another document, destination = original)"
@@ -228,17 +228,15 @@ func c16Run(seed seedDoc, cfg Cfg, hist []c16Op) (what, fp string) {
 			origInInput = true
 			src = nil
 		} else if o.Kind == 2 {
-			// the original is recycled: another document is parsed with it as the reuse argument
-			if o.Obj != 0 {
-				return "", ""
-			}
+			// an object (the original or a clone) is recycled: another document is parsed with
+			// it as the reuse argument; every OTHER object must keep denoting its own document
 			other := []byte(`{"zz":"completely different strings","yy":["Q","RR","SSS"],"n":[9,8]}`)
 			od, _ := ref.Parse(other)
 			npj, perr, pp := doParse(cfg, append([]byte(nil), other...), src.pj, false)
 			if perr != nil || pp != "" {
 				return fmt.Sprint("op ", i, " re-parse with reuse failed: ", perr, pp), "reparse"
 			}
-			objs[0] = &c16Obj{npj, []*ref.Node{od}}
+			objs[o.Obj] = &c16Obj{npj, []*ref.Node{od}}
 			src = nil
 		} else if o.Kind == 1 {
 			var dst *simdjson.ParsedJson
@@ -318,6 +316,11 @@ func c16Run(seed seedDoc, cfg Cfg, hist []c16Op) (what, fp string) {
 			}
 		}
 	}
+	// the library never writes into the caller's input buffer (in no-copy mode the document
+	// lives there; a replacement value must go to the string buffer)
+	if !origInInput && !bytes.Equal(in, text) {
+		return fmt.Sprintf("the caller's input buffer was modified by the operations: now %s, was %s", clip(string(in)), clip(string(text))), "input-written"
+	}
 	// finally the input buffer is overwritten: nothing may change (copy mode) / clones stay intact (both modes)
 	for i := range in {
 		in[i] = '#'
@@ -392,7 +395,7 @@ func c16Body(w *W) {
 			alpha = append(alpha, c16Op{Kind: 1, Obj: obj, Dst: dst})
 		}
 	}
-	alpha = append(alpha, c16Op{Kind: 2, Obj: 0}, c16Op{Kind: 3, Obj: 0})
+	alpha = append(alpha, c16Op{Kind: 2, Obj: 0}, c16Op{Kind: 2, Obj: 1}, c16Op{Kind: 2, Obj: 2}, c16Op{Kind: 3, Obj: 0})
 	depth := 3
 	seeds := []seedDoc{editSeeds[0], editSeeds[1], editSeeds[5]}
 	w.Note(fmt.Sprintf("Clone histories: every sequence of <= %d operations over %d ops {4 edits x 3 positions on the original or a clone, Clone of any object into nil or into any other existing object, re-parsing another document with the original as reuse argument, Deserialize of another document's blob into the original} on %d seeds x copy/no-copy; after every step every object must equal its own model, and again after the input buffer is overwritten", depth, len(alpha), len(seeds)))
